@@ -47,6 +47,28 @@ Theorem C07_inline_complete :
     has_code_on_line f cpos cline d = true.
 Proof. exact has_code_on_line_complete. Qed.
 
+(* (4') the four scopes of the property, composed from the pieces above (f_package <= c_pos c: the comment is not file-level;
+   "no declaration ends on its line": prev_ends_on_line = false; the enclosing declaration is the first one that ends after it) *)
+Theorem C07_scope_whole_following_declaration :
+  forall f c d, f_package f <= c_pos c -> prev_ends_on_line f c = false -> enclosing f c = Some d -> c_pos c < n_pos d -> 0 < n_end d ->
+    scope f c = Some (c_pos c, n_end d).
+Proof. exact scope_before_decl. Qed.
+Theorem C07_scope_own_line_when_trailing_code :
+  forall f c d ls, f_package f <= c_pos c -> prev_ends_on_line f c = false -> enclosing f c = Some d -> n_pos d <= c_pos c ->
+    has_code_on_line f (c_pos c) (line_of f (c_pos c)) d = true -> line_start f (line_of f (c_pos c)) = Some ls ->
+    scope f c = Some (ls, c_end c).
+Proof. exact scope_inline. Qed.
+Theorem C07_scope_own_line_when_trailing_a_declaration :
+  forall f c ls, f_package f <= c_pos c -> prev_ends_on_line f c = true -> line_start f (line_of f (c_pos c)) = Some ls ->
+    scope f c = Some (ls, c_end c).
+Proof. exact scope_trailing_decl. Qed.
+Theorem C07_scope_whole_following_statement :
+  forall f c d x rest, f_package f <= c_pos c -> prev_ends_on_line f c = false -> enclosing f c = Some d -> n_pos d <= c_pos c ->
+    has_code_on_line f (c_pos c) (line_of f (c_pos c)) d = false ->
+    after_sorted_b (c_pos c) d = true -> after (c_pos c) (preorder d) = x :: rest -> 0 < n_end x ->
+    scope f c = Some (c_pos c, n_end x).
+Proof. exact scope_inside_body. Qed.
+
 (* (5) matching: one more scoped @ignore with codes C and range [s,e] suppresses (c,p) iff s <= p <= e and C holds
    ALL, c's category or c (C is upper-cased by the parser: case-insensitive); everything else is decided as before *)
 Definition hit (C : list string) (s e : Z) (c : string) (p : Z) : bool :=
@@ -111,6 +133,10 @@ Print Assumptions C07_scope_end_not_inline.
 Print Assumptions C07_next_node_is_first_after.
 Print Assumptions C07_inline_sound.
 Print Assumptions C07_inline_complete.
+Print Assumptions C07_scope_whole_following_declaration.
+Print Assumptions C07_scope_own_line_when_trailing_code.
+Print Assumptions C07_scope_own_line_when_trailing_a_declaration.
+Print Assumptions C07_scope_whole_following_statement.
 Print Assumptions C07_one_more_comment.
 Print Assumptions C07_codes_are_upper_cased.
 Print Assumptions C07_effect_report_time.
